@@ -19,6 +19,9 @@ EXTPROP = {'before_visit': 'LBefore', 'after_visit': 'LAfter', 'inner_visit': 'L
 WHEN = {'BEFORE', 'AFTER', 'INNER', 'OUTTER'}
 
 
+EXTLIST_CLASS = []
+
+
 class Bad(ValueError):
     pass
 
@@ -55,6 +58,7 @@ class Method:
         self.rec = recursive_name
         self.vars = {}                      # python local name -> index
         self.assigned = set()               # names definitely bound so far (straight-line approximation, fail-closed)
+        self.in_extlist = False
         args = fn.args
         if args.vararg or args.kwarg or args.kwonlyargs or args.posonlyargs:
             bad('parameter list of %s' % fn.name, fn)
@@ -95,7 +99,11 @@ class Method:
         bad('except clause class', t)
 
     def is_self_ext(self, e):
-        """self.extensions.<prop>"""
+        """self.extensions.<prop>   (inside a method of ExtList itself: self.<prop>)"""
+        if self.in_extlist:
+            if isinstance(e, ast.Attribute) and isinstance(e.value, ast.Name) and e.value.id == 'self' and e.attr in EXTPROP:
+                return EXTPROP[e.attr]
+            return None
         if (isinstance(e, ast.Attribute) and isinstance(e.value, ast.Attribute) and isinstance(e.value.value, ast.Name)
                 and e.value.value.id == 'self' and e.value.attr == 'extensions' and e.attr in EXTPROP):
             return EXTPROP[e.attr]
@@ -119,6 +127,8 @@ class Method:
             if s.value is not None:
                 bad('return with a value', s)
             return 'SReturn'
+        if isinstance(s, ast.AnnAssign) and s.value is not None and isinstance(s.target, ast.Name):
+            s = ast.copy_location(ast.Assign(targets=[s.target], value=s.value), s)     # the annotation has no run-time meaning here
         if isinstance(s, ast.Assign):
             if len(s.targets) != 1 or not isinstance(s.targets[0], ast.Name):
                 bad('assignment target', s)
@@ -213,6 +223,18 @@ class Method:
             is_super = (isinstance(f.value, ast.Call) and isinstance(f.value.func, ast.Name) and f.value.func.id == 'super'
                         and not f.value.args and not f.value.keywords)
             is_self = isinstance(f.value, ast.Name) and f.value.id == 'self'
+            # self.extensions.<helper>(ob): a method of ExtList whose body only runs extension loops is inlined
+            if (isinstance(f.value, ast.Attribute) and isinstance(f.value.value, ast.Name) and f.value.value.id == 'self'
+                    and f.value.attr == 'extensions' and not c.keywords and not self.in_extlist):
+                helper = [m for m in EXTLIST_CLASS[0].body if isinstance(m, ast.FunctionDef) and m.name == f.attr]
+                if len(helper) != 1 or helper[0].decorator_list:
+                    bad('ExtList helper %s' % f.attr, s)
+                sub = Method(helper[0], 'self', self.level)
+                sub.in_extlist = True
+                body = strip_doc(helper[0].body)
+                if not body or not all(isinstance(x, ast.For) for x in body):
+                    bad('ExtList helper %s does more than run extension loops' % f.attr, helper[0])
+                return sub.block(body)
             if is_super and self.level == 0 and not c.keywords and f.attr == self.fn.name and f.attr in ('visit', 'depart'):
                 return 'SCall CSuperVisit' if f.attr == 'visit' else 'SCall CSuperDepart'
             if is_self and self.level == 1 and f.attr == 'visit' and not c.keywords:
@@ -249,6 +271,7 @@ def generate() -> dict:
     V = find_class(tree, 'Visitor')
     B = find_class(tree, '_BaseVisitor')
     E = find_class(tree, 'ExtList')
+    EXTLIST_CLASS[:] = [E]
     X = find_class(tree, 'VisitorExt')
 
     # ---- class structure the model relies on
